@@ -40,8 +40,14 @@ def _user_exc(name):
 
 
 # user classes: round-trip through a registered dict-to-class converter for their qualified name (see _UserExcs)
+def _str_fails(self):
+    raise RuntimeError("this exception cannot be rendered as text")
+
+
 USER_EXCS = {"u_timeout": _user_exc("TimeoutError"), "u_naming": _user_exc("NamingError"), "u_key": _user_exc("KeyError"),
-             "u_conn": _user_exc("ConnectionClosedError"), "u_app": _user_exc("AppError")}
+             "u_conn": _user_exc("ConnectionClosedError"), "u_app": _user_exc("AppError"),
+             # an application exception whose __str__ raises (whoever formats it for a log line or an error text finds out)
+             "u_nostr": type("Unprintable", (Exception,), {"__module__": __name__, "__qualname__": "Unprintable", "__str__": _str_fails})}
 # StopIteration is drawn rarely (known finding, see BatchWorld.ASSUMPTIONS); never raised: Pyro5 CommunicationError / SecurityError
 # (handleRequest treats those specially for a single call: no reply / connection dropped - not a batch matter)
 FAIL_KINDS = {"timeout": TimeoutError, "connreset": ConnectionResetError, "conn": ConnectionError, "brokenpipe": BrokenPipeError,
@@ -50,6 +56,13 @@ FAIL_KINDS = {"timeout": TimeoutError, "connreset": ConnectionResetError, "conn"
               "stopiter": StopIteration}
 FAIL_KINDS.update(USER_EXCS)
 GEN_FAIL_KINDS = sorted(k for k in FAIL_KINDS if k != "stopiter")       # "stopiter" is drawn separately (rarely)
+
+
+def _safe_str(x):
+    try:
+        return str(x)
+    except Exception:  # noqa - workload exceptions may refuse to be rendered
+        return "<unprintable %s>" % type(x).__name__
 
 
 def qualname(t):
@@ -107,6 +120,14 @@ class Acc:
         else:
             self.add = self.addneg
         return "add" in self.__dict__
+
+    @api.expose
+    def req(self, path, method="GET"):
+        """a method with a parameter called 'method' (an http-style facade): code that forwards **kwargs through a helper
+        with a parameter of that name trips over it"""
+        self.log.append(["req", path, method])
+        self.last = [path, method]
+        return "%s %s" % (method, path)
 
     @api.expose
     def push(self, v):
@@ -253,6 +274,9 @@ def _call(rng, huge, slow=False):
     k = rng.choices(["add", "push", "put", "get", "div", "check", "hidden", "_secret", "nosuch", "addstr", "work", "fail", "ident", "arr", "flip"],
                     [4, 3, 3, 1, 2, 2, 0.35, 0.35, 0.25, 0.2, 10 if slow else 0.3, 2.2, 0.8, 0.6, 0.9])[0]
     if k == "flip":
+        if rng.random() < 0.4:
+            kw = rng.choice([{"method": "POST"}, {"method": "PUT"}, {"method": "DELETE"}, {}])    # (a keyword 'self' cannot even leave the client)
+            return {"m": "req", "a": ["/p%d" % rng.randint(0, 9)], "k": kw}
         return {"m": "flip", "a": [], "k": {}}
     if k == "ident":
         return {"m": "ident", "a": [], "k": {}}
@@ -260,7 +284,7 @@ def _call(rng, huge, slow=False):
         return {"m": "arr", "a": [rng.randint(0, 20)], "k": {}}
     if k == "fail":
         # StopIteration rarely: a batch hands it to its consumer as RuntimeError (PEP 479, known finding with a signature of its own)
-        kind = "stopiter" if rng.random() < 0.06 else rng.choice(GEN_FAIL_KINDS)
+        kind = "stopiter" if rng.random() < 0.06 else rng.choice(GEN_FAIL_KINDS + ["u_nostr", "u_nostr"])
         return {"m": "fail", "a": [kind, rng.randint(0, 99)], "k": {}}
     if k == "work":
         return {"m": "work", "a": [rng.choice([0.4, 0.5, 0.6, 0.7])], "k": {}}
@@ -456,6 +480,8 @@ class BatchWorld(World):
                                                        {"m": "hidden", "a": [1], "k": {}}, {"m": "fail", "a": ["key", 5], "k": {}}])
             return {"servertype": servertype, "serializer": serializer, "net": {"p_frag": 0.0, "shuffle_select": False}, "p_block": 0.0,
                     "oversize": {"limit": rng.choice([1000, 1500, 2000]), "calls": calls, "mode": rng.choice(["normal", "normal", "oneway"])}}
+        if any(c["m"] == "fail" and c["a"][0] == "u_nostr" for c in calls) and rng.random() < 0.6:
+            plan["debuglog"] = True     # Pyro's logging at DEBUG: whatever formats the exception for a log line meets its __str__
         if target != "instance":
             plan["concurrent"] = False
             plan["start"] = rng.choice([0, 0, 0.01, 2.0])
@@ -646,7 +672,7 @@ class BatchWorld(World):
             cause = getattr(x, "__cause__", None)
             return {"cause": None if cause is None else [qualname(type(cause)), list(getattr(cause, "args", ()))],
                     "cls": qualname(type(x)), "args": list(getattr(x, "args", ())), "comm": isinstance(x, E.CommunicationError),
-                    "text": str(x)[:200], "own": last == __file__}
+                    "text": _safe_str(x)[:200], "own": last == __file__}
 
         def client(uris, body):
             """connect everything, wait for the other clients, then run body(*proxies)"""
@@ -1001,8 +1027,12 @@ class BatchWorld(World):
                         ctx.disturbed = "%s: sequential reference diverged from local execution at call %d (%s)" % (u["tag"], i, c["m"])
                         return None
                 else:
-                    if fail is None or fail["pos"] != i or fail["cls"] != local[1] or \
-                            (local[2] is not None and not same(fail["args"], local[2])):
+                    if fail is not None and fail["pos"] == i and not fail["comm"] and \
+                            (fail["cls"] != local[1] or (local[2] is not None and not same(fail["args"], local[2]))):
+                        # the one-by-one call failed where it should, with another exception than the method raised (how faithfully
+                        # an exception travels is not this property's business): the one-by-one run stays the reference
+                        ctx.probe("reference_exception_differs_from_local")
+                    elif fail is None or fail["pos"] != i:
                         ctx.disturbed = "%s: sequential reference diverged from local execution at failing call %d (%s): %r" \
                                         % (u["tag"], i, c["m"], fail)
                         return None
